@@ -701,6 +701,9 @@ class CNLTransformer(Transformer):
             return None
 
     def _parse_entity_parameter(self, name, label):
+        if label is None:
+            # a parameter without a label names an attribute; it must not match an unlabelled entity of the proposition
+            return None
         try:
             entity = self._proposition.get_entity_by_label(label)
             if entity.get_name() == name[0]:
